@@ -12,6 +12,7 @@ pub mod refcodec;
 pub mod rng;
 pub mod runner;
 pub mod smast;
+pub mod spair;
 pub mod sout;
 pub mod trace_sub;
 
